@@ -148,13 +148,18 @@ C27Clauses(seen, cfg, tenant) ==
     \cup (IF Cardinality(seen) <= 1 THEN {} ELSE {"choice-stable-across-repeated-and-concurrent-requests"})
 
 (* ---- C49: memcached server selection ---- *)
-(* single[k]: server picked for key k looked up alone; batch[k]: in a batch; perm[k]: with   *)
-(* the same servers listed in another order; after[k]: after adding server `new`.            *)
-C49Clauses(single, batch, perm, after, new) ==
+(* "Each cache key is sent to the same memcached server whether it is looked up alone or in  *)
+(* a batch and regardless of the order servers are listed in": single[k] / batch[k] /         *)
+(* perm[k] = the server picked for key k alone / in a batch / alone with the same servers     *)
+(* listed in another order.                                                                    *)
+C49PlaceClauses(single, batch, perm) ==
     (IF single = batch THEN {} ELSE {"single-and-batch-agree"})
     \cup (IF single = perm THEN {} ELSE {"independent-of-listing-order"})
-    \cup (IF \A k \in DOMAIN single : after[k] = single[k] \/ after[k] = new THEN {}
-          ELSE {"adding-a-server-moves-keys-only-onto-it"})
+(* "adding a server only moves keys onto the new server": before[k] / after[k] = server of   *)
+(* key k before / after adding server `new`.                                                  *)
+C49AddClauses(before, after, new) ==
+    IF \A k \in DOMAIN before : after[k] = before[k] \/ after[k] = new THEN {}
+    ELSE {"adding-a-server-moves-keys-only-onto-it"}
 
 (***************************************************************************)
 (* ======================  ALGORITHM LEVEL  ======================         *)
@@ -218,6 +223,22 @@ ZoneShard(zring, ps) == ShardPicks(zring, ps, {})
 ShardSizeAlgo(default, ovs, tenant) ==
     LET m == { k \in DOMAIN ovs : ovs[k].type \in {"exact", "glob", ""} /\ OverrideMatches(ovs[k], tenant) }
     IN IF m = {} THEN default ELSE ovs[HMin(m)].size
+
+(* ---- jump hash (pkg/cacheutil/jump_hash.go) on a reduced word size ---- *)
+(* The code: b := -1; j := 0; for j < n { b = j; key = key*A + 1 (mod 2^64);                  *)
+(*           j = floor((b+1) * (2^31 / ((key>>33)+1))) }; return b.                           *)
+(* Model: words of W bits, the top H = W - S bits of the key drive the jump:                  *)
+(*           j = floor((b+1) * 2^H / ((key >> S) + 1)).                                        *)
+JumpLcg(key, W, A) == (key * A + 1) % (2 ^ W)
+JumpTo(b, key, S, H) == ((b + 1) * (2 ^ H)) \div ((key \div (2 ^ S)) + 1)
+RECURSIVE JumpLoop(_, _, _, _, _, _, _, _)
+JumpLoop(b, j, key, n, W, S, H, A) ==
+    IF j >= n THEN b
+    ELSE LET k2 == JumpLcg(key, W, A) IN JumpLoop(j, JumpTo(j, k2, S, H), k2, n, W, S, H, A)
+JumpHashModel(key, n, W, S, A) == JumpLoop(-1, 0, key, n, W, S, W - S, A)
+(* the selector: servers in natural sort order, bucket = jump hash of the key's hash *)
+PickModel(sorted, keyhash, W, S, A) ==
+    IF Len(sorted) = 1 THEN sorted[1] ELSE sorted[JumpHashModel(keyhash, Len(sorted), W, S, A) + 1]
 
 (* ---- enumeration helpers for the models ---- *)
 (* zone layouts of n endpoints up to renaming: zone sizes non-increasing, at most mz zones *)
